@@ -47,8 +47,61 @@ fn once(input: &[u8]) -> (String, Option<Vec<u8>>) {
     }
 }
 
+/// Third run set: parse, GC (so that the function arena has tombstones), then the same edit of every local
+/// function - through `iter_local_mut` in the serial flavour, through the public `par_iter_local_mut` (rayon)
+/// in the parallel flavour - and emit. The parallel iterators must yield exactly the live local functions.
+fn once_edited(input: &[u8]) -> (String, Option<Vec<u8>>) {
+    let cfg = cfg_from_mask(DEFAULT_CFG);
+    match guarded(|| {
+        cfg.parse(input).map(|mut m| {
+            walrus::passes::gc::run(&mut m);
+            let mark = |id: walrus::FunctionId, f: &mut walrus::LocalFunction| {
+                let mut b = f.builder_mut().func_body();
+                b.const_at(0, walrus::ir::Value::I64(crate::scen_rt::MARKER ^ (id.index() as i64)));
+                b.drop_at(1);
+            };
+            #[cfg(feature = "parallel")]
+            {
+                use rayon::prelude::*;
+                let mut serial_ids: Vec<usize> = m.funcs.iter_local().map(|(id, _)| id.index()).collect();
+                let mut par_ids: Vec<usize> = m.funcs.par_iter_local().map(|(id, _)| id.index()).collect();
+                serial_ids.sort();
+                par_ids.sort();
+                if serial_ids != par_ids {
+                    return Err(format!("par_iter_local yields {:?}, iter_local yields {:?}", par_ids, serial_ids));
+                }
+                let seen = std::sync::Mutex::new(Vec::new());
+                m.funcs.par_iter_local_mut().for_each(|(id, f)| {
+                    seen.lock().unwrap().push(id.index());
+                    mark(id, f)
+                });
+                let mut seen = seen.into_inner().unwrap();
+                seen.sort();
+                if seen != serial_ids {
+                    return Err(format!("par_iter_local_mut yields {:?}, iter_local yields {:?}", seen, serial_ids));
+                }
+            }
+            #[cfg(not(feature = "parallel"))]
+            for (id, f) in m.funcs.iter_local_mut() {
+                mark(id, f);
+            }
+            Ok::<Vec<u8>, String>(m.emit_wasm())
+        })
+    }) {
+        Ok(Ok(Ok(out))) => ("ok".into(), Some(out)),
+        Ok(Ok(Err(e))) => (format!("iter-mismatch:{}", e.chars().take(200).collect::<String>()), None),
+        Ok(Err(e)) => (format!("err:{}", format!("{:#}", e).lines().next().unwrap_or("").chars().take(160).collect::<String>()), None),
+        Err(p) => (format!("panic:{}", p), None),
+    }
+}
+
 #[cfg(not(feature = "parallel"))]
 pub fn run(input: &[u8], _scn: &str, rec: &mut Rec) {
+    let (v3, out3) = once_edited(input);
+    rec.push_s("verdict_ed", &v3);
+    if let Some(o) = out3 {
+        rec.push_b("out_ed", &o);
+    }
     let (v, out) = once(input);
     rec.push_s("flavour", "serial");
     rec.push_s("verdict", &v);
@@ -178,6 +231,34 @@ pub fn run(input: &[u8], scn: &str, rec: &mut Rec) {
                         if let Some(o) = &out {
                             rec.push_b(&format!("out.{}", label), o);
                         }
+                    }
+                }
+            }
+        }
+    }
+    // third set: GC, then every local function edited through the parallel mutable iterator
+    let mut first_ed: Option<(String, Option<Vec<u8>>)> = None;
+    mode.store(0, Ordering::Relaxed);
+    for &threads in (if lite { &[2usize][..] } else { &[1usize, 3, 16][..] }) {
+        let pool = match rayon::ThreadPoolBuilder::new().num_threads(threads).build() {
+            Ok(p) => p,
+            Err(_) => continue,
+        };
+        let (v, out) = pool.install(|| once_edited(input));
+        runs += 1;
+        match &first_ed {
+            None => {
+                rec.push_s("verdict_ed", &v);
+                if let Some(o) = &out {
+                    rec.push_b("out_ed", o);
+                }
+                first_ed = Some((v, out));
+            }
+            Some((v0, out0)) => {
+                if *v0 != v || *out0 != out {
+                    rec.push_s(&format!("verdict.ed.t{}", threads), &v);
+                    if let Some(o) = &out {
+                        rec.push_b(&format!("out.ed.t{}", threads), o);
                     }
                 }
             }
